@@ -221,8 +221,18 @@ def _left_kind(left_txt: str) -> Optional[str]:
     m = list(_re.finditer(r"\(\?<!\[([^\]]*)\]\)\s*$", left_txt))
     if m:
         cls = m[-1].group(1)
-        if "\\w" in cls and "." in cls and "#" in cls and "/" in cls:
-            return "strong"
+        # the exact set of printable ASCII characters the class excludes (ranges such as '#-/' included): evaluate the constant class
+        try:
+            rx = _re.compile("[" + cls + "]")
+            excluded = {chr(c) for c in range(32, 127) if rx.fullmatch(chr(c))}
+        except _re.error:
+            return "word"
+        need = set(".#/") | {c for c in map(chr, range(32, 127)) if c.isalnum() or c == "_"}
+        if need <= excluded:
+            # characters that may PRECEDE a reference in a command line (',', "'", '(', '$', '+', '=' ..) must not be excluded as well:
+            # an occurrence glued to one of them would be taken for the inside of a longer reference and left in place
+            extra = excluded - need - {"-"}
+            return "strong" if not extra else "wide:" + "".join(sorted(extra))
         return "word"
     if left_txt.endswith("^") or "(?:^|" in left_txt:
         return "strong"
